@@ -227,7 +227,8 @@ class Contract:
     """
 
     def __init__(self, qual, make_args=None, requires=(), ensures=(), result=None, raises=(),
-                 modifies=None, is_async=None, note="", pre_state=None):
+                 modifies=None, is_async=None, note="", pre_state=None, decreases=None):
+        self.decreases = decreases  # R3: integer measure for recursive calls (fn(ctx, args) -> z3 Int)
         self.qual = qual
         self.make_args = make_args
         self.requires = list(requires)
@@ -360,6 +361,8 @@ class Engine:
                 ctx.assume(req(ctx, args))
             if not ctx.feasible():
                 raise Infeasible()
+            if contract.decreases is not None:
+                ctx.ghost["__measure__"] = (contract.qual, contract.decreases(ctx, args))
             old = Old(ctx.snapshot())
             fr = Frame(mod, label, cls_qual)
             try:
@@ -475,6 +478,11 @@ class Engine:
         def run(ctx):
             for name, req in c.requires:
                 ctx.oblige(f"{self.current_top}/call:{c.qual.split(':')[1]}/requires/{name}", req(ctx, args))
+            if c.decreases is not None and ctx.ghost.get("__measure__", (None,))[0] == c.qual:
+                m_old = ctx.ghost["__measure__"][1]
+                m_new = c.decreases(ctx, args)
+                ctx.oblige(f"{self.current_top}/call:{c.qual.split(':')[1]}/recursion-measure-decreases-and-is-bounded",
+                           z3.And(m_new >= 0, m_new < m_old))
             old = Old(ctx.snapshot())
             if c.modifies:
                 from .tdesc import mk
@@ -488,9 +496,12 @@ class Engine:
                 outcome = ("return", res)
             else:
                 spec = raises[k - 1]
-                exc = spec if isinstance(spec, VExc) else VExc(spec, msg=VStr(ctx.fresh_str("excmsg")), origin=c.qual)
-                if exc.cls is None and isinstance(spec, str):
+                if isinstance(spec, VExc):
+                    exc = spec
+                elif spec.endswith("*"):
                     exc = VExc(None, msg=VStr(ctx.fresh_str("excmsg")), bound=spec.rstrip("*"), origin=c.qual)
+                else:
+                    exc = VExc(spec, msg=VStr(ctx.fresh_str("excmsg")), origin=c.qual)
                 outcome = ("raise", exc)
             for name, ens in c.ensures:
                 g = ens(ctx, old, args, outcome)
